@@ -456,6 +456,7 @@ func c02Store(p *Prog, r *Report) {
 	mergeTruthTable(p, r, "R11")
 	selectorTruthTable(p, r, "R12")
 	hashKeyRule(p, r, "R13")
+	deleteStageTable(p, r, "R14")
 	r.Rule("R8", "in FunctionData.UpdateData every store to the data field is either guarded by both filters being nil (replace path) or happens after the Updater.UpdateList call under its success (merge path)")
 	var fns []*ssa.Function
 	for _, f := range p.RepoFns("spine") {
